@@ -37,6 +37,9 @@ pub struct Spec {
     /// an artifact recorded with two digest algorithms that agree on one and differ on the other, tied by MATCH + DISALLOW
     #[serde(default)]
     pub two_digest_match: bool,
+    /// keep the step multi-party (threshold 2): differing links must then be *rejected* every time
+    #[serde(default)]
+    pub multi_party: bool,
 }
 
 pub fn verify_dir_once(dir: &std::path::Path) -> serde_json::Value {
@@ -77,7 +80,9 @@ fn build(spec: &Spec) -> Option<World> {
     if spare.is_empty() {
         return None;
     }
-    if w.layout.steps[i].threshold > 1 {
+    if spec.multi_party {
+        w.layout.steps[i].threshold = 2;
+    } else if w.layout.steps[i].threshold > 1 {
         w.layout.steps[i].threshold = 1;
     }
     // keep only one original link for the step, so that every counted link is either the base or a variant
@@ -175,8 +180,9 @@ impl Property for C13 {
             any::<bool>(),
             proptest::collection::vec(any::<u8>(), 0..6),
             prop_oneof![3 => Just(false), 1 => Just(true)],
+            prop_oneof![3 => Just(false), 1 => Just(true)],
         )
-            .prop_map(|((world, owners), step, variants, rule_trap, creation_order, two_digest_match)| Spec { world, owners, step, variants, rule_trap, creation_order, two_digest_match })
+            .prop_map(|((world, owners), step, variants, rule_trap, creation_order, two_digest_match, multi_party)| Spec { world, owners, step, variants, rule_trap, creation_order, two_digest_match, multi_party })
             .prop_filter("buildable", |s| build(s).is_some())
             .boxed()
     }
@@ -212,6 +218,9 @@ impl Property for C13 {
         if spec.two_digest_match {
             o.class("two-digest-match");
         }
+        if spec.multi_party {
+            o.class("multi-party-with-differing-links");
+        }
         let mut outcomes: Vec<serde_json::Value> = vec![];
         for _ in 0..r_reps {
             outcomes.push(verify_dir_once(&dir));
@@ -240,8 +249,8 @@ impl Property for C13 {
                 o.fail(format!("C13/summary-differs/{}", what), format!("summaries differ between repetitions: {} vs {}", first, other["summary"]), "the same summary every time");
             }
         }
-        if j.ambiguous || spec.two_digest_match {
-            o.nontrivial(format!("{}|{:?}|{}|{}|{}", w.layout.steps.len(), spec.variants, spec.rule_trap, spec.step as usize % w.layout.steps.len(), spec.two_digest_match));
+        if j.ambiguous || spec.two_digest_match || spec.multi_party {
+            o.nontrivial(format!("{}|{:?}|{}|{}|{}|{}", w.layout.steps.len(), spec.variants, spec.rule_trap, spec.step as usize % w.layout.steps.len(), spec.two_digest_match, spec.multi_party));
         }
         let _ = std::fs::remove_dir_all(&dir);
         o
